@@ -46,9 +46,11 @@ def run(ctx, rep):
         for f_ in fams_:
             k_ = prog.cls(FAMILIES[f_])
             for th in ivcases.EXACT_THETAS[f_]:
-                for u0 in (0.15, 0.5, 0.85):
-                    for v0 in (0.2, 0.6, 0.9):
-                        u_, v_ = IV(u0, u0 + 1e-4), IV(v0, v0 + 1e-4)
+                # the bulk of the square, and the corners of the stated domain where the density is smallest
+                pts = [(u0, v0) for u0 in (0.15, 0.5, 0.85) for v0 in (0.2, 0.6, 0.9)] + [(1e-4, 0.999), (0.999, 1e-4), (1e-3, 0.7)]
+                for u0, v0 in pts:
+                    if True:
+                        u_, v_ = IV(u0, u0 + min(1e-4, u0 * 1e-2)), IV(v0, v0 + min(1e-4, v0 * 1e-2))
                         lp = evaluate(ctx, k_, 'log_probability_density', th, u_, v_, alts=True, domain=dom, domcache=cache)
                         pd2 = evaluate(ctx, k_, 'probability_density', th, u_, v_, alts=True, domain=dom, domcache=cache)
                         lp = [x for x, d_, _ in lp if d_ and isinstance(x, IV) and not x.nan]
